@@ -18,7 +18,7 @@ def run(ctx, rep):
     N.check_grouping(r1)
     r2 = rep.rule("lane-store", "lanes[d.index.value] = 1 for each datum; only IndexError of that store skipped, per datum", floor=1)
     N.check_lane_store(r2)
-    r3 = rep.rule("note-table", "32 primary Note values = {0,1}^5, names = set bits in GRYBO order, aliases agree", floor=60)
+    r3 = rep.rule("note-table", "32 primary Note values = {0,1}^5, names = set bits in GRYBO order, aliases agree", floor=32)
     N.check_note_table(r3)
     r4 = rep.rule("index-table", "NoteTrackIndex = G0 R1 Y2 B3 O4 FORCED5 TAP6 OPEN7", floor=7)
     N.check_index_table(r4)
